@@ -163,13 +163,21 @@ def run_case(ctx, g, rng):
             if fr[0] != "ret" or fr[1] != o:
                 violation(["C15"], "ref:print-parse", "from_reference-differs", got=fr, **w)
             evaluated("ref:immutable")
-            for attr in ("prefix", "identifier"):
+            # "instances are immutable": every field, the name of the namable classes included (seed C15-T), by
+            # assignment and by deletion
+            name_before = getattr(o, "name", None)
+            for attr in ("prefix", "identifier") + (("name",) if hasattr(o, "name") else ()):
                 try:
                     setattr(o, attr, "zz")
                     violation(["C15"], "ref:immutable", "attribute-assignment-accepted", attribute=attr, **w)
                 except (pydantic.ValidationError, AttributeError, TypeError):
                     pass
-            if (o.prefix, o.identifier) != (p, i):
+                try:
+                    delattr(o, attr)
+                    violation(["C15"], "ref:immutable", "attribute-deletion-accepted", attribute=attr, **w)
+                except (pydantic.ValidationError, AttributeError, TypeError):
+                    pass
+            if (getattr(o, "prefix", None), getattr(o, "identifier", None), getattr(o, "name", None)) != (p, i, name_before):
                 violation(["C15"], "ref:immutable", "object-changed-by-assignment", **w)
         probe.note_key(f"print-parse:{cls}:{ifeat(i)}:{'e' if p == '' else 'p'}", ifeat(i) != "-" or p == "")
     for bad in ("nodelim", "", rng.choice(["é", " ", "a b"])):
